@@ -417,7 +417,7 @@ func cmdCheck(args []string) {
 					if firstIterRefuted(ctx, or, secs) {
 						mis = ""
 						shapeOK = true
-						rf.ReplayInfo += " | the contract's loop clauses no longer fit the function; refuted on the paths that leave every loop before completing an iteration (no invariant needed)"
+						rf.ReplayInfo += " | the contract's loop clauses no longer fit the function; refuted on the paths through at most three unrolled copies of each loop body (no invariant, no havoc: real paths of the function)"
 					}
 				}
 				if (expected[name] || claimedPanicFree || (or.Obl.Kind != "safe" && expectedNorm[normName(name)])) && shapeOK && !tainted && mis == "" {
@@ -448,6 +448,62 @@ func cmdCheck(args []string) {
 					fmt.Printf("  replay: %s\n", ro.Detail)
 				}
 				fmt.Printf("VIOLATION property=%s replay=%s%s\n", *prop, rp, suffix)
+			}
+		}
+	}
+	// A function whose loop clauses no longer fit AND whose invariant obligations are refuted: its
+	// postconditions and call-site clauses were discharged from invariants that do not hold. They
+	// are decided again on the unrolled under-approximation (real paths): one that is refuted there
+	// is a violation although the invariant-based condition "proved" it.
+	{
+		byFunc := map[string][]*OblResult{}
+		invRefuted := map[string]bool{}
+		for _, or := range all {
+			fn := or.Func.FullName
+			byFunc[fn] = append(byFunc[fn], or)
+			if or.Status == "REFUTED" && strings.HasPrefix(or.Obl.Kind, "inv") {
+				invRefuted[fn] = true
+			}
+		}
+		var fns []string
+		for fn := range invRefuted {
+			if misfit[fn] != "" {
+				fns = append(fns, fn)
+			}
+		}
+		sort.Strings(fns)
+		for _, fn := range fns {
+			var cands []*OblResult
+			for _, or := range byFunc[fn] {
+				if or.Status == "PROVED" && (or.Obl.Kind == "ensures" || or.Obl.Kind == "callsite") && or.Obl.Bound == "" &&
+					(expected[or.Obl.Name] || expectedNorm[normName(or.Obl.Name)]) {
+					cands = append(cands, or)
+				}
+			}
+			for _, or := range cands {
+				if _, ok := knownByObl[or.Obl.Name]; ok {
+					continue
+				}
+				if !firstIterRefuted(ctx, or, secs) {
+					continue
+				}
+				name := or.Obl.Name
+				violations++
+				discharged--
+				dir := filepath.Join(*verif, "replays", *prop)
+				os.MkdirAll(dir, 0o755)
+				rp := filepath.Join(dir, sanitize(strings.TrimPrefix(name, "github.com/NethermindEth/juno/"))+".json")
+				rf := replayFile{Property: *prop, Obligation: name, Kind: or.Obl.Kind, Description: or.Obl.Descr, Position: or.Obl.Pos.String(),
+					Replay:     "not-replayable",
+					ReplayInfo: "the contract's loop clauses no longer fit the function (" + misfit[fn] + ") and its loop invariants are refuted, so the invariant-based condition for this clause proves nothing; the clause is refuted on the paths through at most three unrolled copies of each loop body (no invariant, no havoc: real paths of the function, callees by contract)",
+					Notes:      or.Func.VC.notes}
+				if or.Func.VC.root != nil {
+					rf.Package = filepath.Dir(ctx.prog.Fset.Position(or.Func.VC.root.Pos()).Filename)
+				}
+				b, _ := json.MarshalIndent(rf, "", " ")
+				os.WriteFile(rp, b, 0o644)
+				fmt.Printf("  refuted: %s\n  at %s: %s\n  replay: refuted on the unrolled paths of a function whose loop clauses no longer fit\n", name, or.Obl.Pos, or.Obl.Descr)
+				fmt.Printf("VIOLATION property=%s replay=%s no-failing-input-found\n", *prop, rp)
 			}
 		}
 	}
@@ -631,23 +687,27 @@ func loopVarSignature(fr *Frame) string {
 // is refuted there.
 func firstIterRefuted(ctx *Ctx, or *OblResult, secs int) bool {
 	ctx.firstIter = true
-	defer func() { ctx.firstIter = false }()
-	fr := ctx.GenVC(or.Func.Contract)
-	if fr == nil || fr.VC == nil || fr.Err != "" {
-		return false
-	}
-	useCoreTypes = fr.Contract.CoreTypes
-	fr.VC.declsCache = fr.VC.tt.Decls()
-	want := normName(or.Obl.Name)
-	refuted := false
-	for _, o := range fr.Obls {
-		if normName(o.Name) != want || o.Bound != "" {
-			continue
+	defer func() { ctx.firstIter, ctx.unroll = false, 0 }()
+	// first the paths that leave every loop before completing an iteration, then the paths through
+	// at most three copies of each loop body (unrolled, no invariant, no havoc)
+	for _, k := range []int{1, 3} {
+		ctx.unroll = k
+		fr := ctx.GenVC(or.Func.Contract)
+		if fr == nil || fr.VC == nil || fr.Err != "" {
+			return false
 		}
-		r := Solve(fr.VC, o, secs, false, "fi")
-		if r.Status == "sat" {
-			refuted = true
+		useCoreTypes = fr.Contract.CoreTypes
+		fr.VC.declsCache = fr.VC.tt.Decls()
+		want := normName(or.Obl.Name)
+		for _, o := range fr.Obls {
+			if normName(o.Name) != want || o.Bound != "" {
+				continue
+			}
+			r := Solve(fr.VC, o, secs, false, "fi")
+			if r.Status == "sat" {
+				return true
+			}
 		}
 	}
-	return refuted
+	return false
 }
